@@ -19,7 +19,7 @@
 (* TLC checks the documentation clauses as invariants over all pairs, so a *)
 (* wrong transcription is caught by TLC and not only by the code.          *)
 (***************************************************************************)
-EXTENDS Naturals, Integers, Sequences, FiniteSets, TLC
+EXTENDS MetaFilterOps
 
 CONSTANTS MaxAlts      \* longest list of alternatives
 
@@ -27,36 +27,14 @@ VARIABLES f, v, res
 vars == <<f, v, res>>
 
 -----------------------------------------------------------------------------
-(* values: uniform records so that TLC never compares values of different TLA+ types *)
-Val(ty, n, s) == [ty |-> ty, n |-> n, s |-> s]
-Absent   == Val("absent", 0, <<>>)
-NoneV    == Val("none", 0, <<>>)
-Bool(b)  == Val("bool", IF b THEN 1 ELSE 0, <<>>)
-Num(t)   == Val("num", t, <<>>)          \* tenths: Num(15) is 1.5, Num(10) is 1
-Str(s)   == Val("str", 0, s)
-Dict(i)  == Val("dict", i, <<>>)         \* dict number i (two different dicts, equal only to themselves)
-
+(* the universe *)
 Values == {Absent, NoneV, Bool(TRUE), Bool(FALSE), Num(0), Num(10), Num(15), Num(50), Num(-10),
            Str(<<>>), Str(<<"a">>), Str(<<"a", "b">>), Str(<<"b">>), Str(<<"1">>), Dict(1), Dict(2)}
-
-\* pattern tokens
-Lit(c)   == [t |-> "lit", c |-> c, cs |-> {}]
-Any1     == [t |-> "any", c |-> "", cs |-> {}]
-Star     == [t |-> "star", c |-> "", cs |-> {}]
-Set(cs)  == [t |-> "set", c |-> "", cs |-> cs]
-NSet(cs) == [t |-> "nset", c |-> "", cs |-> cs]
 
 Patterns == {<<>>, <<Lit("a")>>, <<Lit("a"), Lit("b")>>, <<Lit("1")>>, <<Lit("a"), Star>>, <<Any1, Lit("b")>>, <<Star>>,
              <<Set({"a", "c"}), Lit("b")>>, <<NSet({"a"})>>, <<Star, Lit("b")>>, <<Any1>>}
 
 Ops == {"=", "<", "<=", ">", ">=", "!="}      \* "!=" stands for any unknown operator
-
-\* filters: uniform records; k in atom / pat / op / list
-Filt(k, x, op, p, alts) == [k |-> k, x |-> x, op |-> op, p |-> p, alts |-> alts]
-Atom(x)    == Filt("atom", x, "", <<>>, <<>>)
-Pat(p)     == Filt("pat", Absent, "", p, <<>>)
-OpF(op, x) == Filt("op", x, op, <<>>, <<>>)
-ListF(as)  == Filt("list", Absent, "", <<>>, as)
 
 AtomVals  == {NoneV, Bool(TRUE), Bool(FALSE), Num(0), Num(10), Num(15), Num(50), Dict(1)}
 OpVals    == {NoneV, Bool(TRUE), Num(10), Num(15), Str(<<"a">>), Str(<<"a", "b">>), Dict(1)}
@@ -67,52 +45,6 @@ AltPool   == {Atom(NoneV), Atom(Bool(FALSE)), Atom(Num(10)), Pat(<<Lit("a"), Sta
 Lists1    == {ListF(<<>>)} \cup {ListF(<<a>>) : a \in AltPool} \cup {ListF(<<a, b>>) : a \in AltPool, b \in AltPool}
 Nested    == {ListF(<<ListF(<<a>>), b>>) : a \in {Atom(NoneV), Atom(Num(10))}, b \in {Pat(<<Lit("a"), Star>>), Atom(Bool(FALSE))}}
 Filters   == Simple \cup (IF MaxAlts >= 2 THEN Lists1 \cup Nested ELSE {ListF(<<a>>) : a \in AltPool})
-
------------------------------------------------------------------------------
-(* Python semantics *)
-IsNumeric(a)   == a.ty \in {"bool", "num"}
-Numeric(a)     == IF a.ty = "bool" THEN a.n * 10 ELSE a.n
-PyEq(a, b)     == \/ IsNumeric(a) /\ IsNumeric(b) /\ Numeric(a) = Numeric(b)
-                  \/ a.ty = b.ty /\ ~IsNumeric(a) /\ a = b
-Comparable(a, b) == \/ IsNumeric(a) /\ IsNumeric(b)
-                    \/ a.ty = "str" /\ b.ty = "str"
-
-\* lexicographic order on strings (sequences of one-character strings; characters ordered by Rank)
-Rank(c) == CASE c = "1" -> 1 [] c = "a" -> 2 [] c = "b" -> 3 [] c = "c" -> 4 [] OTHER -> 0
-RECURSIVE StrLess(_, _)
-StrLess(s, t) == IF t = <<>> THEN FALSE
-                 ELSE IF s = <<>> THEN TRUE
-                 ELSE IF Head(s) = Head(t) THEN StrLess(Tail(s), Tail(t))
-                 ELSE Rank(Head(s)) < Rank(Head(t))
-Less(a, b) == IF a.ty = "str" THEN StrLess(a.s, b.s) ELSE Numeric(a) < Numeric(b)
-
-Cmp(op, a, b) ==
-    CASE op = "="  -> PyEq(a, b)
-      [] op = "<"  -> Comparable(a, b) /\ Less(a, b)
-      [] op = "<=" -> Comparable(a, b) /\ (Less(a, b) \/ PyEq(a, b))
-      [] op = ">"  -> Comparable(a, b) /\ Less(b, a)
-      [] op = ">=" -> Comparable(a, b) /\ (Less(b, a) \/ PyEq(a, b))
-      [] OTHER     -> FALSE
-
-RECURSIVE Glob(_, _)
-Glob(p, s) ==
-    IF p = <<>> THEN s = <<>>
-    ELSE LET h == Head(p) IN
-         CASE h.t = "star" -> Glob(Tail(p), s) \/ (s # <<>> /\ Glob(p, Tail(s)))
-           [] h.t = "any"  -> s # <<>> /\ Glob(Tail(p), Tail(s))
-           [] h.t = "lit"  -> s # <<>> /\ Head(s) = h.c /\ Glob(Tail(p), Tail(s))
-           [] h.t = "set"  -> s # <<>> /\ Head(s) \in h.cs /\ Glob(Tail(p), Tail(s))
-           [] h.t = "nset" -> s # <<>> /\ Head(s) \notin h.cs /\ Glob(Tail(p), Tail(s))
-
-\* metadata.get(key): a missing key reads as None
-Rec(x) == IF x.ty = "absent" THEN NoneV ELSE x
-
-RECURSIVE Match(_, _)
-Match(g, x) ==
-    CASE g.k = "list" -> \E i \in 1 .. Len(g.alts) : Match(g.alts[i], x)
-      [] g.k = "op"   -> Cmp(g.op, Rec(x), g.x)
-      [] g.k = "pat"  -> Rec(x).ty = "str" /\ Glob(g.p, Rec(x).s)
-      [] OTHER        -> IF Rec(x).ty = "none" THEN g.x.ty = "none" ELSE PyEq(Rec(x), g.x)
 
 -----------------------------------------------------------------------------
 Init == /\ f \in Filters
